@@ -15,16 +15,17 @@ import (
 // ---- C08: spec/Signature.tla ----
 
 type sigCfg struct {
-	Style   string `json:"style"`
-	Recv    bool   `json:"recv"`
-	Reverse bool   `json:"reverse"`
-	SrcPtr  bool   `json:"srcPtr"`
-	DstPtr  bool   `json:"dstPtr"`
-	RetErr  bool   `json:"retErr"`
-	Nargs   int    `json:"nargs"`
-	Named   bool   `json:"named"`
-	Imp     string `json:"imp"`
-	Pkg     string `json:"pkg"`
+	Style    string `json:"style"`
+	Recv     bool   `json:"recv"`
+	Reverse  bool   `json:"reverse"`
+	SrcPtr   bool   `json:"srcPtr"`
+	DstPtr   bool   `json:"dstPtr"`
+	RetErr   bool   `json:"retErr"`
+	Nargs    int    `json:"nargs"`
+	Named    bool   `json:"named"`
+	NamedRes bool   `json:"namedRes"`
+	Imp      string `json:"imp"`
+	Pkg      string `json:"pkg"`
 }
 type sigImport struct {
 	Path     string `json:"path"`
@@ -38,6 +39,7 @@ func (i sigImport) qual() string {
 	}
 	return i.Declared
 }
+
 type sigParam struct {
 	Name string `json:"name"`
 	Type string `json:"type"`
@@ -125,9 +127,9 @@ func sigConcretise(k int, s *sigCase) *b1.Case {
 	}
 	var results string
 	switch {
-	case c.Named && c.RetErr:
+	case c.NamedRes && c.RetErr:
 		results = "(to " + star(c.DstPtr, dstBase) + ", err error)"
-	case c.Named:
+	case c.NamedRes:
 		results = "(to " + star(c.DstPtr, dstBase) + ")"
 	case c.RetErr:
 		results = "(" + star(c.DstPtr, dstBase) + ", error)"
@@ -169,7 +171,10 @@ func sigDescribe(s *sigCase) string {
 	}
 	f = append(f, fmt.Sprintf("args=%d", c.Nargs))
 	if c.Named {
-		f = append(f, "named")
+		f = append(f, "named-params")
+	}
+	if c.NamedRes {
+		f = append(f, "named-results")
 	}
 	f = append(f, "imported="+c.Imp)
 	if c.Imp != "none" {
@@ -319,7 +324,7 @@ func C08(c *core.Ctx) {
 	for _, j := range []int{0, len(cases) / 2, len(cases) - 1} {
 		c.Sample(map[string]any{"cfg": cases[j].Data.(*sigCase).Cfg, "predicted": cases[j].Data.(*sigCase).Shape, "method": cases[j].Method, "notations": cases[j].Notes})
 	}
-	c.Set("rule", "complete product style x recv x reverse x source pointer x destination pointer x error x 0..3 additional arguments x named/unnamed x imported operand types (none/src/dst/both) x import form (path element = package name, version element as name, package name differing from the path, explicit name), each with the header Signature.tla predicts or `reject`; header compared by receiver/parameter/result names and type expressions; rejected combinations travel alone and must exit non-zero")
+	c.Set("rule", "complete product style x recv x reverse x source pointer x destination pointer x error x 0..3 additional arguments x named/unnamed parameters x named/unnamed results x imported operand types (none/src/dst/both) x import form (path element = package name, version element as name, package name differing from the path, explicit name), each with the header Signature.tla predicts or `reject`; header compared by receiver/parameter/result names and type expressions; rejected combinations travel alone and must exit non-zero")
 }
 
 // ---- C10 static: spec/Hooks.tla ----
